@@ -63,7 +63,12 @@ def native_fallback(prop, tier, seed, reason):
     out = native(dict(cmd='check', prop=prop, cases=cases), timeout=3000)
     cov = dict(bounded_parts=[dict(function='native corpus of %s (fallback)' % prop, bound='%d seeded concrete inputs' % len(cases), reason='pvc could not analyse this tree: ' + reason[:200])],
                native_corpus_cases=len(cases))
+    seen = set()
     for c, fails in zip(cases, out):
+        fails, known = split_known_native(prop, fails)
+        for k in known:
+            if k['id'] not in seen:
+                seen.add(k['id']); print("KNOWN-FINDING: property=%s %s [%s]" % (prop, k['what'], k['id']))
         if fails and not any(str(f).startswith('CHECKER-EXCEPTION') for f in fails):
             class _S: repo = os.environ.get('PVC_REPO', '/repo')
             class _C: seed_ = seed
@@ -75,6 +80,19 @@ def native_fallback(prop, tier, seed, reason):
             print("VIOLATION property=%s replay=%s obligation=native-corpus-fallback" % (prop, path))
             return 1, cov
     return None
+
+
+def split_known_native(prop, fails):
+    """native failure messages tagged KNOWN[<id>] by a native fingerprint (the checker recomputed the recorded defect's exact
+    value and the real code matches it) are the listed known finding <id> of this property; everything else is new"""
+    import re
+    ids = {k['id']: k for k in load_known().get('findings', []) if k['property'] == prop}
+    new, known = [], []
+    for f in fails:
+        m = re.match(r'KNOWN\[(\w+)\] ', str(f))
+        if m and m.group(1) in ids: known.append(ids[m.group(1)])
+        else: new.append(f)
+    return new, known
 
 
 def load_known():
@@ -234,6 +252,7 @@ def native_bounded(cx, prop, n):
     viol = []; errs = []
     for c, fails in zip(cases, out):
         if any(str(f).startswith('CHECKER-EXCEPTION') for f in fails): errs.append(dict(name='native-corpus', detail=str(fails[0])[:600])); continue
+        fails, _known = split_known_native(prop, fails)
         if fails and not viol:
             viol.append(dict(name="native-corpus", prop=prop, status='refuted', native_case=c, native_failures=fails, detail="bounded native corpus: the real code violates the property on this input",
                              meta=dict(function='native corpus', statement="property statements evaluated numerically on the real code")))
